@@ -160,11 +160,21 @@ def payload_truth(run, pre, post, P, cur_v):
         return out
     pre_labels = set(common.labels_of(pre))
     post_labels = set(common.labels_of(post))
+    # tables created outside applying_migration brackets (a migration's
+    # CreateModel is announced by applying_migration, not creating_models)
     created_tables = set()
-    for e in run.writes():
-        m = re.match(r'CREATE TABLE "([^"]+)"', e['sql'])
-        if m and m.group(1) != 'TEMP_TABLE':
-            created_tables.add(m.group(1))
+    in_migration = 0
+    for e in run.events:
+        if e['t'] == 'sig':
+            if e['name'] == 'applying_migration':
+                in_migration += 1
+            elif e['name'] == 'applied_migration':
+                in_migration -= 1
+        elif e['t'] == 'sql' and e['k'] == 'write' and not e.get('inj') \
+                and not in_migration:
+            m = re.match(r'CREATE TABLE "([^"]+)"', e['sql'])
+            if m and m.group(1) != 'TEMP_TABLE':
+                created_tables.add(m.group(1))
     carried_models = {}
     for s in run.signals():
         if s['name'] == 'applying_evolution':
@@ -214,8 +224,37 @@ def payload_truth(run, pre, post, P, cur_v):
     return out
 
 
+def _gen_handover(rng, seed, index, tier):
+    """C10 history (evolutions -> migrations hand-over, migration-only and
+    evolution-only neighbours), optionally with the tables of the
+    migration-only app already present before the first run (a legacy
+    deployment: Django fakes its initial migration)."""
+    from evosim.props import c10
+    c = c10.generate(seed, index, tier)
+    P = c['project']
+    start = c['start']
+    script = []
+    first = c['final_version'] if start == 'virgin' else start
+    script.append({'do': 'deploy', 'v': first})
+    legacy = 'vc' in P['apps'] and rng.random() < 0.6
+    if legacy:
+        script.append({'do': 'legacy_tables', 'apps': ['vc']})
+    script.append({'do': 'run', 'driver': 'command'})
+    if first != c['final_version']:
+        script.append({'do': 'deploy', 'v': c['final_version']})
+        script.append({'do': 'run', 'driver': rng.choice(
+            ['command', 'command', 'api'])})
+    script.append({'do': 'run', 'driver': 'command'})
+    n = proj.n_versions(P)
+    return {'project': P, 'script': script, 'max_k': 40, 'simple': True,
+            'kind': 'handover', 'legacy_tables': legacy,
+            'rows': {}, 'rows_by_version': [{} for _ in range(n)]}
+
+
 def generate(seed, index, tier):
     rng = scenarios.derive_rng(seed, ID, index)
+    if index % 4 == 3:
+        return _gen_handover(rng, seed, index, tier)
     simple = rng.random() < 0.6
     h = history.gen_history(rng, simple=simple,
                             two_apps=rng.random() < 0.5,
@@ -267,8 +306,16 @@ def execute(scn):
         run_idx = 0
         for si, step in enumerate(scn['script']):
             if step['do'] == 'deploy':
-                proj.deploy(ws, P, step['v'], sts)
+                proj.deploy(ws, P, step['v'], sts,
+                            clean=scn.get('kind') == 'handover')
                 cur_v = step['v']
+                continue
+            if step['do'] == 'legacy_tables':
+                lt = ws.run('fresh_schema', {'app_labels': step['apps']})
+                if lt.status != 'ok':
+                    raise runner.HarnessError('legacy tables: %s' % (
+                        (lt.exit or {}).get('msg'),))
+                stats['legacy_tables'] = 1
                 continue
             run_idx += 1
             ws.fork_db('pre')
@@ -329,6 +376,8 @@ def execute(scn):
                 break
         res['runs'] = ws.nruns
     stats['fault_points'] = fired
+    if scn.get('kind') == 'handover':
+        stats['handover_histories'] = 1
     res['nontrivial'] = fired > 0
     res['sample'] = {'script': scn['script'], 'apps': P['order'],
                      'fault_points': fired}
